@@ -91,6 +91,8 @@ REPL = [None, 0, 7, -1, 1.5, True, False, "", "x", [], [1], ["x"], {}, {"a": 1},
         # further value classes: digits that int() refuses, repeat counts beyond the regex engine, mixed key types
         "1\u00b2m", "\u00b2h", "\u2460d", "\u0663m", "+5m", " 5m", {"f|re": "a{99999999999}"}, {"gte": 1, "__k__:1": "x"},
         {"sel": {"f": "x"}, "__k__:1": {"g": 1}, "condition": "not sel", "rules": "any"},
+        {"sel": {"f": "x"}, "__k__:1": {"g": 1}, "condition": "1 of them"}, {"sel": {"f": "x"}, "__k__:1.5": {"g": 1}, "condition": "all of s*"},
+        {"sel": {"f": "x"}, "__k__:null": {"g": 1}, "condition": "1 of *"}, {"sel": {"f": "x"}, "__k__:true": {"g": 1}, "condition": "sel and 1 of them"},
         {"f|base64": "x\ud800"}, {"f|wide|base64offset": "\udfffy"}, {"f|utf16": "a\ud800"}, "lone\ud800surrogate",
         "deaf-cafe-face-beef-feed-babe-decade", ["5d8fd9da-6916-45ef-8d4d-3fa9d19d1a-4"], ["0123456789abcdef0123456789abcdef0123"], "urn:uuid:zz",
         ["{5d8fd9da-6916-45ef-8d4d-3fa9d19d1a14}", "5D8FD9DA691645EF8D4D3FA9D19D1A14"],
